@@ -1,5 +1,5 @@
 """C19 — the command-line pipeline composes and its exit status tells the truth (DESIGN.md §5 C19)."""
-import json, os, random, shutil, subprocess, tempfile
+import json, os, random, shutil, signal, socket, subprocess, tempfile, time, urllib.request, urllib.error
 from concurrent.futures import ThreadPoolExecutor
 from vlib import Infra, rng
 
@@ -131,10 +131,99 @@ class World:
             if rc == 0 and (not os.path.exists(out_path) or "namespace SemaphoreMTB" not in open(out_path).read()):
                 return True, "other", "exit 0 but no Lean model was written"
             return rc == 0, "empty" if out == "" else "other", err
+        if cmd == "serve":
+            return self.serve(s)
         if cmd == "convert-to-raw":
             rc, out, err = self.run(["convert-to-raw", "--input", self.path(s["key"]), "--output", self.path(s["to"])])
             return rc == 0, "empty" if out == "" else "other", err
         raise Infra("unknown step " + cmd)
+
+    @staticmethod
+    def free_ports():
+        """two loopback ports from a range below the kernel's ephemeral range and above the Go harness's own (10000-30000)"""
+        out = []
+        for _ in range(200):
+            p = random.SystemRandom().randrange(30001, 32700)
+            with socket.socket() as so:
+                try:
+                    so.bind(("127.0.0.1", p))
+                except OSError:
+                    continue
+            if p not in out:
+                out.append(p)
+            if len(out) == 2:
+                return out
+        raise Infra("no free loopback port")
+
+    def http(self, url, data=None, timeout=60):
+        """returns (status, body) or (None, error text)"""
+        try:
+            rq = urllib.request.Request(url, data=data, method="POST" if data is not None else "GET")
+            with urllib.request.urlopen(rq, timeout=timeout) as rs:
+                return rs.status, rs.read().decode("utf-8", "replace")
+        except urllib.error.HTTPError as e:
+            return e.code, e.read().decode("utf-8", "replace")
+        except Exception as e:
+            return None, str(e)
+
+    def serve(self, s):
+        """`gnark-mbu start`, one POST of the parameter file once the service answers, SIGINT.  Returns (exit0, answer kind, detail)."""
+        for attempt in range(3):
+            pa, ma = self.free_ports()
+            proc = subprocess.Popen([self.cli, "start"] + self.mode_args(s["mode"]) + ["--keys-file", self.path(s["key"]), "--prover-address", "127.0.0.1:%d" % pa,
+                                     "--metrics-address", "127.0.0.1:%d" % ma], stdout=subprocess.PIPE, stderr=subprocess.PIPE, text=True, cwd=self.dir)
+            up = False
+            deadline = time.time() + 120
+            while time.time() < deadline and proc.poll() is None:
+                st, _ = self.http("http://127.0.0.1:%d/prove" % pa, timeout=5)
+                st2, _ = self.http("http://127.0.0.1:%d/metrics" % ma, timeout=5)
+                if st == 405 and st2 == 200:
+                    up = True
+                    break
+                time.sleep(0.05)
+            if not up:
+                if proc.poll() is None:
+                    proc.kill()
+                    proc.communicate()
+                    return True, "other", "`start` neither exited nor answered on both addresses within 120 s"
+                out, err = proc.communicate()
+                if "address already in use" in err and attempt < 2:
+                    continue        # somebody else took the port between the probe and the bind: not a verdict
+                if proc.returncode == 0:
+                    return True, "empty", "`start` exited with status 0 without ever serving"
+                return False, "empty", "FAILED-SILENTLY" if err.strip() == "" else err
+            kind, detail = "empty", ""
+            if self.params is not None:
+                st, body = self.http("http://127.0.0.1:%d/prove" % pa, data=self.params.encode(), timeout=300)
+                if st == 200:
+                    kind = "other"
+                    try:
+                        if set(json.loads(body)) == {"ar", "bs", "krs"}:
+                            kind = "proof"
+                            self.proof = body + "\n"
+                            self.hash = self.params_hash
+                    except Exception:
+                        pass
+                elif st == 400:
+                    kind = "error"
+                    try:
+                        if set(json.loads(body)) != {"code", "message"}:
+                            kind = "other"
+                    except Exception:
+                        kind = "other"
+                else:
+                    kind, detail = "other", "POST /prove: status %s %s" % (st, body[:200])
+            proc.send_signal(signal.SIGINT)
+            try:
+                out, err = proc.communicate(timeout=120)
+            except subprocess.TimeoutExpired:
+                proc.kill()
+                proc.communicate()
+                return False, kind, "`start` did not exit within 120 s after SIGINT"
+            if proc.returncode != 0:
+                return False, kind, "`start` exit status %s after SIGINT although it was serving: %s" % (proc.returncode, err[-300:])
+            return True, kind, detail or err
+        raise Infra("`start` could not bind fresh loopback ports three times in a row")
 
     def close(self):
         shutil.rmtree(self.dir, ignore_errors=True)
@@ -156,6 +245,8 @@ def run_behaviour(cli, base, seed, steps):
             if ok != (s["exit0"] == "yes"):
                 return dict(step=i, detail="`%s` exit status %s, Cli.tla says %s. stderr: %s" % (
                     " ".join("%s=%s" % kv for kv in s.items() if kv[0] not in ("exit0", "stdout")), "0" if ok else "non-zero", "0" if s["exit0"] == "yes" else "non-zero", (err or "")[-300:]))
+            if s["cmd"] == "serve" and s["stdout"] != "any" and kind != s["stdout"]:
+                return dict(step=i, detail="`start` (mode %r, keys %s): POST /prove of the parameter file answered %s, Cli.tla says %s. %s" % (s["mode"], s["key"], kind, s["stdout"], (err or "")[-300:]))
             if s["cmd"] in ("prove", "gen-test-params", "export-solidity-stdout") and kind != s["stdout"]:
                 return dict(step=i, detail="`%s` wrote %s on standard output, Cli.tla says %s" % (s["cmd"], kind, s["stdout"]))
             if err == "FAILED-SILENTLY":
@@ -233,6 +324,22 @@ def run(ctx):
                   K(cmd="extract-circuit", exit0="yes", stdout="empty"),
                   K(cmd="damage", key="k1", how="truncated", exit0="yes", stdout="empty"), K(cmd="export-vk", key="k1", exit0="no", stdout="empty"),
                   K(cmd="export-solidity-stdout", key="k1", exit0="no", stdout="empty")])
+    # the service in the pipeline: gen-test-params -> POST /prove of `start` -> verify; refusals to start; SIGINT exit status
+    for m, o, dim in ((dele, ins, "A"), (ins, dele, "B")):
+        fixed.append([K(cmd="serve", key="k1", mode=m, exit0="no", stdout="empty"),                                   # no keys file
+                      K(cmd="setup", key="k1", mode=m, dim=dim, exit0="yes", stdout="empty"),
+                      K(cmd="serve", key="k1", mode=m, exit0="yes", stdout="empty"),                                  # nothing to send yet
+                      K(cmd="gen-test-params", mode=m, dim=dim, valid=True, exit0="yes", stdout="params"),
+                      K(cmd="serve", key="k1", mode="", exit0="no", stdout="empty"), K(cmd="serve", key="k1", mode="bogus", exit0="no", stdout="empty"),
+                      K(cmd="serve", key="k1", mode=m, exit0="yes", stdout="proof"), K(cmd="verify", key="k1", mode=m, hash="own", exit0="yes", stdout="empty"),
+                      K(cmd="verify", key="k1", mode=m, hash="other", exit0="no", stdout="empty"),
+                      K(cmd="serve", key="k1", mode=o, exit0="yes", stdout="any"),
+                      K(cmd="gen-test-params", mode=m, dim=dim, valid=False, exit0="yes", stdout="params"),
+                      K(cmd="serve", key="k1", mode=m, exit0="yes", stdout="error"),
+                      K(cmd="convert-to-raw", key="k1", to="k2", exit0="yes", stdout="empty"), K(cmd="gen-test-params", mode=m, dim=dim, valid=True, exit0="yes", stdout="params"),
+                      K(cmd="serve", key="k2", mode=m, exit0="yes", stdout="proof"), K(cmd="verify", key="k1", mode=m, hash="own", exit0="yes", stdout="empty"),
+                      K(cmd="damage", key="k2", how="truncated", exit0="yes", stdout="empty"), K(cmd="serve", key="k2", mode=m, exit0="no", stdout="empty"),
+                      K(cmd="damage", key="k1", how="garbage", exit0="yes", stdout="empty"), K(cmd="serve", key="k1", mode=m, exit0="no", stdout="empty")])
     # keys of an independent setup of the same dimensions must reject the proof
     fixed.append([K(cmd="setup", key="k1", mode=dele, dim="A", exit0="yes", stdout="empty"), K(cmd="setup", key="k2", mode=dele, dim="A", exit0="yes", stdout="empty"),
                   K(cmd="gen-test-params", mode=dele, dim="A", valid=True, exit0="yes", stdout="params"), K(cmd="prove", key="k1", mode=dele, exit0="yes", stdout="proof"),
@@ -244,7 +351,7 @@ def run(ctx):
     sim, seen = [], set()
     for t in r["traces"]:
         k = json.dumps(t, sort_keys=True)
-        interesting = sum(1 for s in t if s["cmd"] in ("prove", "verify", "convert-to-raw", "export-vk", "export-solidity-stdout", "import-setup")) >= 2 \
+        interesting = sum(1 for s in t if s["cmd"] in ("prove", "verify", "convert-to-raw", "export-vk", "export-solidity-stdout", "import-setup", "serve")) >= 2 \
             and sum(1 for s in t if s["cmd"] == "setup") <= 2 and sum(1 for s in t if s["cmd"] == "r1cs" and s["depth"] >= 31) <= 1
         if k not in seen and interesting and len(sim) < n:
             seen.add(k)
